@@ -228,7 +228,7 @@ def _install_spec_models(interp):
             yield st, (VBool(r) if isinstance(r, bool) else mk_bool(r))
             return
         if s.concrete:
-            yield st, VBool(speclib.matches(s.v, unlift(pat)))
+            yield st, VBool(speclib.matches(s.v, unlift(pat)) if isinstance(s.v, (bytes, bytearray)) and isinstance(unlift(pat), str) else p.fullmatch(s.v) is not None)
             return
         P = regex.parsed(p)
         if P.anch_start or P.end_kind:
